@@ -211,6 +211,9 @@ pub fn run(prop: &'static str, tier: Tier, seed: u64, findings: &Findings) -> i3
     let started = Instant::now();
     let cfg = RunCfg { prop, tier, seed };
     let mut wc = gen::wxml::WxmlCfg::new(tier.pick(2, 3), tier.pick(2, 3));
+    // slot value scopes: dynamic-slot components of the stub DOM and `slot:` references on their children
+    wc.slot_refs = true;
+    wc.dyn_tags = true;
     if prop == "C05" {
         // collision bias: identifiers drawn mostly from names that scopes introduce
         wc.expr.idents = vec!["item", "index", "it", "idx", "x", "a", "b", "list", "i", "k", "mod", "m", "tools", "item2"];
